@@ -119,12 +119,30 @@ CURATED_TEXT = {
 'pratt_call': "token N L R C P; start s; s: e; e: e P e @bin | e args @call | N @name; args: L [e (C e)*] R;",
 'pratt_in_loop': "token N P S; start s; s: (e S)*; e: e P e | N;",
 'pratt_pred': "token N P M; start s; s: e; e: ?1 e M e | e P e | N;",
+'pratt_pred_atom': "token N P M; start s; s: e; e: e P e | ?1 N | M;",
+'pratt_pred_atom_shared': "token N P M; start s; s: e; e: e P e | ?1 N M | N;",
+'pratt_pred_atom_prefix': "token N P M; start s; s: e; e: e P e | ?1 M e | N | M N;",
+'pratt_pred_atom_in_choice': "token N P M Q; start s; s: (e M / N Q) Q; e: e P e | ?1 N | Q;",
+'choice_ret_committed': "token A B C D; start s; s: r D; r: A* (B ~ & C ^ / B D);",
+'choice_ret_second': "token A B C D; start s; s: r D; r: A (B C / & B ^);",
+'choice_ret_inner_rule': "token A B C D; start s; s: (r C / r D) D; r: A & B;",
+'unused_rule': "token A B; start s; s: A; u: B u | A;",
+'unused_rule_referencing': "token A B C; start s; s: A x; x: B; u: x C;",
+'pred_twice': "token A B C; start s; s: (?1 A | B) (?1 A | C);",
+'pred_twice_rules': "token A B C; start s; s: (?1 A | B) x; x: ?1 A | C;",
+'assert_twice': "token A B; start s; s: !1 A !1 B;",
+'action_twice': "token A B; start s; s: #1 A #1 B #2;",
 'pratt_only_left': "token N X Y; start s; s: e; e: e X | e Y | N;",
 }
 
 # candidates that the UNCHANGED lelwel rejects for a reason one of the properties relies on; if a changed sema lets one
 # through, its emitted parser is explored like any other grammar
 NEAR_MISS_TEXT = {
+# return operator inside an alternative that can still be abandoned (rejected as E036 since fix F12)
+'nm_choice_ret_first': "token A B C D Ws; skip Ws; start s; s: r D; r: A* (& B ^ / B C);",
+'nm_choice_ret_first_plain': "token A B C D; start s; s: r D; r: A (& B / B C);",
+'nm_choice_ret_first_elided': "token A B C D; start s; s: r D; r^: A* (& B / B C);",
+'nm_choice_ret_nested': "token A B C D; start s; s: r D; r: A* ([& B] C / B D);",
 'nm_crossing': "token A B C; start s; s: <1 A <2 B 1>x 2>y C;",
 'nm_crossing_opt': "token A B C; start s; s: <1 A <2 B [C 1>x] 2>y;",
 'nm_crossing_loop': "token A B C; start s; s: <1 A <2 (B 2>y 1>x)* C;",
